@@ -12,12 +12,12 @@ Import ListNotations.
 Local Open Scope N_scope.
 """
 
-ALPHABET = "ab/.-_*?[]!^\\z0c~&|{ "
-DIRECTED = ["*", "*.vtu", "run1/*", "p_*", "*_tmp", "[z-a]", "[!z-a]", "[a-]", "[-a]", "[!-a]", "[a-b-c]", "[a-c-]", "[--a]", "[!!]",
+ALPHABET = "ab/.-_*?[]!^\\z0c~&|{ ABPZ"
+DIRECTED = ["*", "p", "P", "[a-c]", "[A-C]", "*.VTU", "*.vtu", "run1/*", "p_*", "*_tmp", "[z-a]", "[!z-a]", "[a-]", "[-a]", "[!-a]", "[a-b-c]", "[a-c-]", "[--a]", "[!!]",
             "[\\-a]", "[]a]", "[!]a]", "[]", "[!]", "[", "[a", "a[", "[a-cx-z]", "[!a-cx-z]b", "**", "*?*", "?", "", "[^a]", "[[]", "[a[b]",
             "[b-a-c]", "[!b-a]", "a/*/b", "*/*", "[a-c]?.csv", "[&~|]", "[!&]", "x[a-c-e]y", "[a-a]", "[a--]", "[!--0]", "*[!.]*",
             "[c-a-z]", "[az-a]", "[a-zz-a]x"]
-NAMES = ["", "a", "b", "z", "-", "a/b", "run1/a/b.csv", "run2/a.csv", "x/y.vtu", "x/y.vtp", "p_1", "s_tmp", "b1.csv", "]", "[", "!", "^",
+NAMES = ["", "a", "b", "z", "A", "P", "p", "Ab", "aB", "RUN1/a", "X/Y.VTU", "-", "a/b", "run1/a/b.csv", "run2/a.csv", "x/y.vtu", "x/y.vtp", "p_1", "s_tmp", "b1.csv", "]", "[", "!", "^",
          "\\", "a-c", "ab", "abc", ".", "..", "a/", "/a", "&", "~", "|", "xay", "x-y", "xdy", "0", "a\nb"]
 
 
@@ -80,6 +80,16 @@ def tie(ctx, n, what):
         ctx.case(canon, bool(pats), sample={"case": canon, "impl": got, "model": v} if nm < 5 else None)
         ctx.count(f"glob:{'match' if got is True else 'no match' if got is False else 'raised'}")
         nm += 1
-        if got != v:
+        import fnmatch as _fn
+        with warnings.catch_warnings():
+            warnings.simplefilter("ignore")
+            try:
+                doc = any(_fn.fnmatchcase(name, p_) for p_ in pats)      # the documented semantics (POSIX: case-sensitive)
+            except Exception:  # noqa: BLE001
+                doc = None
+        if doc is not None and got != doc:
+            ctx.violation("E4", f"pattern filter ({what}): patterns {pats!r} {'select' if got else 'do not select'} the name {name!r}; shell-style "
+                                f"matching says {'selected' if doc else 'not selected'}", canon, impl=got)
+        elif got != v:
             ctx.violation("E2", f"pattern filter: model says {v}, implementation says {got} for patterns {pats!r} and name {name!r}",
                           canon, found_input=False)
